@@ -22,18 +22,18 @@ const (
 
 // Ctx is the context of one check run.
 type Ctx struct {
-	Prop     string // property id, e.g. "C17"
-	Tier     string // quick | thorough
-	Seed     int64
-	VerifDir string // /verif
-	RepoDir  string // /repo
-	SpecDir  string // /verif/spec
-	Scratch  string // private scratch directory, removed at the end
-	BinDir   string // where the freshly built binaries live
-	OutDir   string // /verif/out/<prop>-<tier>-<seed>: replay directories of violations
-	Self     string // path of this binary (for re-exec of workers)
-	Start    time.Time
-	Verbose  bool
+	Prop      string // property id, e.g. "C17"
+	Tier      string // quick | thorough
+	Seed      int64
+	VerifDir  string // /verif
+	RepoDir   string // /repo
+	SpecDir   string // /verif/spec
+	Scratch   string // private scratch directory, removed at the end
+	BinDir    string // where the freshly built binaries live
+	OutDir    string // /verif/out/<prop>-<tier>-<seed>: replay directories of violations
+	Self      string // path of this binary (for re-exec of workers)
+	Start     time.Time
+	Verbose   bool
 	ReplayDir string // when set: re-execute the script stored in this replay directory
 
 	mu       sync.Mutex
